@@ -4,7 +4,7 @@ from ._famprop import make
 
 
 def FAMS(tier):
-    return ["W", "WO", "WS", "LONG"] + (["E1", "D"] if tier == "thorough" else [])
+    return ["W", "WO", "WS", "WM", "LONG"] + (["E1", "D"] if tier == "thorough" else [])
 
 
 run, replay = make(
@@ -13,7 +13,7 @@ run, replay = make(
          "(all signatures of 0-3 int/float parameters x all expression trees with <=2 operators over {+,-,*,/,==,<,>} with parameters and "
          "LEB-boundary / dyadic constants), one program per construct outside the subset (WO), the shape grid WS (parameter patterns x "
          "every interleaving of int/float IR values up to 4 (thorough 6) x void/int/float result x 1-3 exported/non-exported functions) "
-         "and the size sweep LONG - is decoded and validated by an independent WebAssembly 1.0 decoder/validator (binary format, section "
+         "the size sweep LONG and every ordered pair (thorough: triples up to arity 2) of functions with different signatures in one module (WM: 45 signatures = 0-3 int/float parameters x int/float/void result) - is decoded and validated by an independent WebAssembly 1.0 decoder/validator (binary format, section "
          "order and sizes, index ranges, export targets, stack type-checking of every body); wasmtime's validator is a cross-check.",
     nontrivial_note="distinct_nontrivial = modules actually emitted (refusals are trivial for this property).",
     assumptions=["nslmc/wasmref.py implements the 1.0 binary format and validation rules", "wasmtime accepts a superset of 1.0; it may only reject what wasmref rejects"],
